@@ -47,11 +47,15 @@ Section Blocks.
     let linear := abs_err - quadratic in
     nhalf * (quadratic * quadratic) + delta * linear.
 
-  (** masked_mse_loss(predictions, targets, mask) = mean(sq_err(pred, target) * mask[:, None]) *)
+  (** masked_mse_loss(predictions, targets, mask): squared error times the mask reshaped to
+      mask.shape + (1,) * (sq_err.ndim - mask.ndim), i.e. one mask entry per sample (row). *)
   Definition sqerr (a b : F) : F := (a - b) * (a - b).
   Definition masked_mse_loss (pred target : tensor F) (mask : list F) : res F :=
     do se <- bop sqerr pred target;
-    do prod <- tmul se (col mask);
+    do prod <- match se with
+               | T2 _ => tmul se (col mask)
+               | _ => tmul se (T1 mask)
+               end;
     Ok (tmean prod).
 
   (** avg_l1_norm(x, eps) = x / max(mean(|x|), eps) *)
